@@ -78,6 +78,12 @@ def adversarial(tier="thorough"):
             ("toml", b"a = " + b"9" * 100000), ("toml", b"a" * 100000 + b" = 1"), ("toml", b'a = """' + b"\\" * 99999),
             ("toml", corpus.toml_dotted_nest(8)), ("toml", corpus.toml_dotted_nest(20)), ("toml", corpus.toml_dotted_nest(60)),
             ("yaml", b"a" * 200000), ("yaml", b"\xef\xbb\xbf" * 1000), ("yaml", b"\xff\xfe" + b"a\x00" * 5000), ("yaml", b"\x00\x00\xfe\xff" + b"\x00\x11\x00\x00" * 10)]
+    # YAML behind a UTF-8 byte order mark (and UTF-16/32 behind two marks, of which the re-encoder keeps one), with multi-byte
+    # characters at the end of each document: whatever offsets the parser reports, a document is cut at a character
+    for body in ("[\u20ac]", "- \u00e9\n- \u20ac\n---\n- \U0001f600\n", "k: \u20ac\n---\nj: \u00e9\u00e9\n---\n\U0001f600\n", "{a: \u20ac}\n--- \u20ac\n", "\u20ac"):
+        out.append(("yaml", b"\xef\xbb\xbf" + body.encode()))
+        out.append(("yaml", ("\ufeff\ufeff" + body).encode("utf-16-le")))
+        out.append(("yaml", ("\ufeff\ufeff" + body).encode("utf-32-be")))
     # every ill-formed one- and two-unit class of UTF-16 and UTF-32 YAML, both byte orders, with and without a byte order mark
     # (the debug binary has overflow checks: arithmetic on surrogates must not be reached with anything but a valid pair)
     for order in ("big", "little"):
@@ -180,6 +186,16 @@ def run_binary(outcome, tier, seed):
             for to in ("json", "yaml", "toml", "msgpack"):
                 jobs.append((fmt, data, ["-t", to, "-f", fmt], data))
                 jobs.append((fmt, data, ["-t", to, p], None))
+    # documents nested as deep as each source format allows (and a little less), to every target: legal input never kills xt
+    for fmt, docs in (("msgpack", [corpus.nest_msgpack(dd, sh) for dd in (900, 1000, 1023) for sh in ("map", "array", "alt")]),
+                      ("json", [b'{"a":' * 127 + b"1" + b"}" * 127, b"[" * 127 + b"1" + b"]" * 127]),
+                      ("yaml", [b"{a: " * 126 + b"1" + b"}" * 126, b"- " * 126 + b"1\n"])):
+        for k, data in enumerate(docs):
+            p = os.path.join(d, "deep%d.%s" % (k, ext[fmt]))
+            open(p, "wb").write(data)
+            for to in ("json", "yaml", "toml", "msgpack"):
+                jobs.append((fmt, data, ["-t", to, p], None))
+                jobs.append((fmt, data, ["-t", to, "-f", fmt], data))
     # error paths with a standard error stream that cannot be written to: still exit status 1, never an abort
     errjobs = []
     for argv, stdin in ((["missing.json"], None), (["-f", "json"], b"{"), (["-t", "json", "-f", "yaml"], b"~: 1\n"), (["-", "-"], b"1"),
